@@ -483,8 +483,11 @@ fn emit_event(cs: u8, v: &Vals) -> Exp {
             e(3, MODULE, vec!["orphan".into(), format!("a={}", v.a)])
         }
         6 => {
-            tracing::warn!(f = d);
-            e(2, MODULE, vec![format!("f={:?}", d)])
+            // (128-bit integers beyond the 64-bit range for large u / a)
+            let wide: u128 = ((v.u as u128) << 40) | 1;
+            let nwide: i128 = (v.a as i128) * (1i128 << 40);
+            tracing::warn!(f = d, w = wide, n = nwide);
+            e(2, MODULE, vec![format!("f={:?}", d), format!("w={}", wide), format!("n={}", nwide)])
         }
         7 => {
             tracing::debug!(http.method = %v.s, "weird name" = v.a);
